@@ -131,6 +131,96 @@ Theorem exact_aux_refuted : exists (m : bytes) (aux : option bytes),
 Proof. exists [1%N], (Some []). split; [reflexivity|discriminate]. Qed.
 
 
+(* ---------- grouping by tag: each bucket is the sub-list of the reports with that tag, in input order,
+   and the buckets appear in the order in which their tags are first seen ---------- *)
+Definition has_tag (T : bytes) (m : message) : bool := bytes_eqb (mTag m) T.
+Definition first_tags (l : list message) : list bytes :=
+  fold_left (fun acc m => if existsb (fun T => bytes_eqb T (mTag m)) acc then acc else acc ++ [mTag m]) l [].
+Definition buckets_of (l : list message) : list (bytes * list message) :=
+  map (fun T => (T, filter (has_tag T) l)) (first_tags l).
+
+Lemma bytes_eqb_sym a b : bytes_eqb a b = bytes_eqb b a.
+Proof.
+  revert b. induction a as [|x a IH]; intros [|y b]; cbn [bytes_eqb]; try reflexivity.
+  rewrite N.eqb_sym, IH. reflexivity.
+Qed.
+Lemma bytes_eqb_false a b : bytes_eqb a b = false <-> a <> b.
+Proof.
+  split.
+  - intros H E. subst. rewrite bytes_eqb_refl in H. discriminate.
+  - intros H. destruct (bytes_eqb a b) eqn:E; [apply bytes_eqb_eq in E; contradiction|reflexivity].
+Qed.
+
+Lemma NoDup_app_snoc {A} (l : list A) a : NoDup l -> ~ In a l -> NoDup (l ++ [a]).
+Proof.
+  induction l as [|x l IH]; intros Hnd Hn; cbn [app]; [constructor; [intros []|constructor]|].
+  apply NoDup_cons_iff in Hnd. destruct Hnd as [Hx Hnd]. constructor.
+  - intro Hin. apply in_app_or in Hin. destruct Hin as [Hin|[Eq|[]]]; [contradiction|]. apply Hn. left. symmetry. exact Eq.
+  - apply IH; [exact Hnd|]. intro H. apply Hn. right. exact H.
+Qed.
+Lemma existsb_tag tags T : existsb (fun T' => bytes_eqb T' T) tags = true <-> In T tags.
+Proof.
+  rewrite existsb_exists. split.
+  - intros [x [Hx E]]. apply bytes_eqb_eq in E. subst. exact Hx.
+  - intros H. exists T. split; [exact H|apply bytes_eqb_refl].
+Qed.
+Lemma filter_snoc {A} (f : A -> bool) l a : filter f (l ++ [a]) = filter f l ++ (if f a then [a] else []).
+Proof. rewrite filter_app. reflexivity. Qed.
+
+Lemma has_tag_self m : has_tag (mTag m) m = true.
+Proof. unfold has_tag. apply bytes_eqb_refl. Qed.
+Lemma has_tag_other T m : T <> mTag m -> has_tag T m = false.
+Proof. intros H. unfold has_tag. apply bytes_eqb_false. congruence. Qed.
+
+Lemma add_to_bucket_map (m : message) (pre : list message) : forall tags, NoDup tags ->
+  (~ In (mTag m) tags -> filter (has_tag (mTag m)) pre = []) ->
+  add_to_bucket (mTag m) m (map (fun T => (T, filter (has_tag T) pre)) tags) =
+  map (fun T => (T, filter (has_tag T) (pre ++ [m])))
+      (if existsb (fun T => bytes_eqb T (mTag m)) tags then tags else tags ++ [mTag m]).
+Proof.
+  induction tags as [|T0 rest IH]; intros Hnd Hunseen.
+  - cbn [map add_to_bucket existsb app]. rewrite filter_snoc, Hunseen by (intros []).
+    rewrite has_tag_self. reflexivity.
+  - apply NoDup_cons_iff in Hnd. destruct Hnd as [Hnot Hnd]. cbn [map add_to_bucket existsb].
+    destruct (bytes_eqb T0 (mTag m)) eqn:E; cbn [orb].
+    + apply bytes_eqb_eq in E. subst T0. cbn [map]. f_equal.
+      * rewrite filter_snoc, has_tag_self. reflexivity.
+      * apply map_ext_in. intros T HT. rewrite filter_snoc, has_tag_other, app_nil_r; [reflexivity|].
+        intro Eq. apply Hnot. rewrite <- Eq. exact HT.
+    + assert (Hne : T0 <> mTag m) by (apply bytes_eqb_false; exact E).
+      rewrite IH; [|exact Hnd|].
+      * destruct (existsb (fun T => bytes_eqb T (mTag m)) rest); cbn [map app]; f_equal;
+          rewrite filter_snoc, (has_tag_other T0 m Hne), app_nil_r; reflexivity.
+      * intros Hn. apply Hunseen. intros [Eq|Hin]; [contradiction|contradiction].
+Qed.
+
+Lemma first_tags_snoc l m : first_tags (l ++ [m]) =
+  if existsb (fun T => bytes_eqb T (mTag m)) (first_tags l) then first_tags l else first_tags l ++ [mTag m].
+Proof. unfold first_tags. rewrite fold_left_app. reflexivity. Qed.
+Lemma collect_snoc l m : collect (l ++ [m]) = add_to_bucket (mTag m) m (collect l).
+Proof. unfold collect. rewrite fold_left_app. reflexivity. Qed.
+
+Lemma first_tags_inv : forall l, NoDup (first_tags l) /\ (forall T, ~ In T (first_tags l) -> filter (has_tag T) l = []).
+Proof.
+  induction l as [|m l IH] using rev_ind; [split; [constructor|reflexivity]|].
+  destruct IH as [Hnd Hun]. rewrite first_tags_snoc.
+  destruct (existsb (fun T => bytes_eqb T (mTag m)) (first_tags l)) eqn:E.
+  - split; [exact Hnd|]. intros T HT. rewrite filter_snoc, (Hun T HT).
+    rewrite has_tag_other; [reflexivity|]. intro Eq. apply HT. rewrite Eq. apply existsb_tag. exact E.
+  - split.
+    + apply NoDup_app_snoc; [exact Hnd|]. intro Hin. apply existsb_tag in Hin. congruence.
+    + intros T HT. rewrite filter_snoc, Hun by (intro; apply HT; apply in_or_app; left; assumption).
+      rewrite has_tag_other; [reflexivity|]. intro Eq. apply HT. apply in_or_app. right. left. symmetry. exact Eq.
+Qed.
+
+Theorem collect_spec : forall l, collect l = buckets_of l.
+Proof.
+  induction l as [|m l IH] using rev_ind; [reflexivity|].
+  destruct (first_tags_inv l) as [Hnd Hun].
+  rewrite collect_snoc, IH. unfold buckets_of. rewrite first_tags_snoc.
+  apply add_to_bucket_map; [exact Hnd|apply Hun].
+Qed.
+
 Section WF.
 Variable F : list N -> list N.
 
